@@ -2,7 +2,8 @@
    Property theorems only; proofs are in Shape/Chain_proofs.v and Shape/Shape_proofs.v.
    Model: Shape/Chain.v (parse_tree_builder.py as coded), specification: Shape/Spec.v. *)
 From Coq Require Import String Ascii List Bool Arith.
-From LV Require Import Base.Prelude Shape.Chain Shape.Spec Shape.Chain_proofs Shape.Shape_proofs.
+From LV Require Import Base.Prelude Shape.Chain Shape.Spec Shape.Chain_proofs Shape.Shape_proofs
+  Shape.Ebnf Shape.Ebnf_proofs.
 Import ListNotations.
 Local Open Scope string_scope.
 
@@ -38,6 +39,21 @@ Theorem C03_placeholders_count (X : Type) (none : X) (kids : X -> option (list X
 Proof. exact (spec_walk_lead X none kids ka k m exp ch). Qed.
 Print Assumptions C03_placeholders_count.
 
+(* FindRuleSize (sum over a sequence, max over alternatives, as coded) is the number of symbols
+   kept by the longest alternative of the bracketed expression *)
+Theorem C03_find_rule_size ka e : wf_ebnf e = true -> frs ka e = longest ka e.
+Proof. exact (frs_longest_alternative ka e). Qed.
+Print Assumptions C03_find_rule_size.
+
+(* [e] adds exactly one alternative: frs(e) `_EMPTY` markers, i.e. an empty expansion whose
+   empty_indices are frs(e) times True - which C03_placeholders_count turns into frs(e) Nones *)
+Theorem C03_maybe_untaken ka e :
+  alts (maybe ka e) = (alts e ++ [repeat IEmpty (frs ka e)])%list /\
+  empty_indices_of (repeat IEmpty (frs ka e)) = repeat true (frs ka e) /\
+  expansion_of (repeat IEmpty (frs ka e)) = [].
+Proof. exact (maybe_untaken ka e). Qed.
+Print Assumptions C03_maybe_untaken.
+
 (* the induction the LALR driver performs: post-order shift/reduce with the rule's callback at
    every reduction builds exactly [shape] of the derivation tree it followed *)
 Theorem C03_lalr_builds_shape mp d : wf_dtree mp d = true ->
@@ -61,6 +77,13 @@ Example C03_example_rule :
   tree_callback ex_rule true false [Tr "_x" [Tok "A" "a"]; Tok "COMMA" ","; Tr "c" []]
   = Ok (Some (Tr "a" [Tok "A" "a"; NoneV; Tr "c" []])) /\
   tree_callback ex_rule false false [Tr "_x" []; Tok "COMMA" ","; Tr "c" []] = Ok (Some (Tr "c" [])).
+Proof. repeat split; reflexivity. Qed.
+
+(* [A "x" | _r B C]: longest alternative keeps 2 symbols (`"x"` and `_r` are not kept) *)
+Example C03_example_size :
+  let e := EAlt [ESeq [ESym (mkSym true "A" false); ESym (mkSym true "X" true)];
+                 ESeq [ESym (mkSym false "_r" false); ESym (mkSym true "B" false); ESym (mkSym true "C" false)]] in
+  wf_ebnf e = true /\ frs false e = 2 /\ frs true e = 2 /\ longest false e = 2.
 Proof. repeat split; reflexivity. Qed.
 
 Definition ex_x : rrec := mkR "_x" [mkSym true "A" false] None None false false [].
